@@ -268,6 +268,23 @@ def run(ctx: Any, prog: Program) -> None:
                                                                      and str(t.slice.value).casefold() == 'nodeid' for t in st.targets)
                     ctx.check('C08.D4', not via_setitem, mod, n, f'`{ast.unparse(st)[:80]}` in {qual} reserves a node id and then stores it through Entity.__setitem__, which releases the '
                               'current number (possibly held by another entity by now) and reserves once more', func=qual, text=f'node_id.get_id stored through __setitem__ in {qual}')
+    # ... and __setitem__ is the only way a keyvalue gets into an entity: it is the one place a `nodeid` value is reserved, so a bulk store
+    # (`self._keys.update(other)`, `self._keys[k] = v` elsewhere) creates an entity that carries a node id nobody reserved
+    n_store = 0
+    for mname, mfn in vm.methods('Entity').items():
+        for n in walk_no_nested(mfn):
+            direct = None
+            if isinstance(n, ast.Call) and isinstance(n.func, ast.Attribute) and dotted(n.func.value) == 'self._keys' and n.func.attr in ('update', 'setdefault', '__setitem__'):
+                direct = n
+            elif isinstance(n, (ast.Assign, ast.AugAssign)) and any(isinstance(t, ast.Subscript) and dotted(t.value) == 'self._keys' for t in (n.targets if isinstance(n, ast.Assign) else [n.target])):
+                direct = n
+            if direct is None:
+                continue
+            n_store += 1
+            ctx.check('C08.D4', mname == '__setitem__', vm, direct, f'Entity.{mname} stores keyvalues with `{ast.unparse(direct)[:60]}`, bypassing __setitem__: a `nodeid` among them is kept verbatim and never reserved in '
+                      'VMF.node_id, so a copy shares its node id with the original (and releases it when it is collected)', func=f'Entity.{mname}', text=f'Entity.{mname}: key store written directly')
+    if n_store < 2:
+        raise AnalysisError(f'only {n_store} direct key-store writes found in Entity (the two arms of __setitem__ confirmed by hand)')
     if n_acq < 2:
         raise AnalysisError(f'only {n_acq} node_id.get_id call sites found (Entity.__setitem__ and Instance.fixup_key confirmed by hand)')
     # ---- D5 --------------------------------------------------------------------------------------------
@@ -315,6 +332,7 @@ def run(ctx: Any, prog: Program) -> None:
 
 
 MUTANTS = [
+    {'id': 'entity_init_bulk_copies_keys', 'file': 'vmf.py', 'find': "        for k, v in keys.items():\n            self[k] = v\n\n        fixup_list = list(fixup)", 'replace': "        if isinstance(keys, _KeyDict):\n            self._keys.update(keys)\n        else:\n            for k, v in keys.items():\n                self[k] = v\n\n        fixup_list = list(fixup)", 'expect': 'C08.D4'},
     {'id': 'node_id_released_on_remove', 'file': 'vmf.py', 'find': "        # Neither the entity ID nor its node ID are released here.", 'replace': "        if 'nodeid' in item:\n            self.node_id.discard(int(item['nodeid']))\n        # Neither the entity ID nor its node ID are released here.", 'expect': 'C08.D4'},
     {'id': 'node_id_reacquired_on_add', 'file': 'vmf.py', 'find': "        # A node ID is reserved by the entity for as long as it has the keyvalue, whether it is in the map or not\n", 'replace': "        if 'nodeid' in item:\n            item['nodeid'] = str(self.node_id.get_id(int(item['nodeid'])))\n", 'expect': 'C08.D4'},
     {'id': 'vmf_gets_len', 'file': 'vmf.py', 'find': "    def iter_wbrushes(self, world: bool = True, detail: bool = True) -> Iterator['Solid']:", 'replace': "    def __len__(self) -> int:\n        return len(self.entities)\n\n    def iter_wbrushes(self, world: bool = True, detail: bool = True) -> Iterator['Solid']:", 'expect': 'C08.D3'},
